@@ -46,6 +46,7 @@ from static_frame.core.util import DEFAULT_SORT_KIND
 from static_frame.core.util import DepthLevelSpecifier
 from static_frame.core.util import DTYPE_DATETIME_KIND
 from static_frame.core.util import DTYPE_INT_DEFAULT
+from static_frame.core.util import DTYPE_NAT_KINDS
 from static_frame.core.util import DTYPE_BOOL
 from static_frame.core.util import DtypeSpecifier
 from static_frame.core.util import EMPTY_ARRAY
@@ -1405,7 +1406,11 @@ class _IndexGOMixin:
         '''Called in Index.__init__(). This creates and populates mutable storage as a side effect of array derivation; this storage will be grown as needed.
         '''
         labels = Index._extract_labels(mapping, labels, dtype)
-        self._labels_mutable = labels.tolist()
+        if labels.dtype.kind in DTYPE_NAT_KINDS:
+            # tolist() would turn datetime64 / timedelta64 labels into date, datetime or int objects
+            self._labels_mutable = list(labels)
+        else:
+            self._labels_mutable = labels.tolist()
         if len(labels):
             self._labels_mutable_dtype = labels.dtype
         else: # avoid setting to float default when labels is empty
